@@ -57,9 +57,10 @@ class Obj:
 class ModelEval:
     """evaluates z3 terms under a model (z3 model object, or a name->value dict from cvc5)"""
 
-    def __init__(self, zmodel=None, values=None):
+    def __init__(self, zmodel=None, values=None, zvalues=None):
         self.zmodel = zmodel
         self.values = values or {}
+        self.zvalues = zvalues
 
     def term(self, e):
         if self.zmodel is not None:
@@ -67,13 +68,17 @@ class ModelEval:
         subs = []
         for c in _consts(e):
             n = c.decl().name()
+            if self.zvalues is not None:
+                zv = self.zvalues.get(n)
+                subs.append((c, zv if zv is not None else core._default_value(c)))
+                continue
             v = self.values.get(n)
             if c.sort() == z3.IntSort():
                 subs.append((c, z3.IntVal(int(v or 0))))
             elif c.sort() == z3.BoolSort():
                 subs.append((c, z3.BoolVal(bool(v))))
             elif c.sort() == z3.StringSort():
-                subs.append((c, z3.StringVal(v or '')))
+                subs.append((c, core.zstrval(v or '')))
         return z3.simplify(z3.substitute(e, *subs)) if subs else z3.simplify(e)
 
     def py(self, e):
@@ -116,6 +121,8 @@ def concretize(v, me, depth=0):
         return {concretize(k, me, depth + 1): concretize(x, me, depth + 1) for k, x in v.items()}
     if isinstance(v, models.SymSet):
         return sorted((concretize(x, me, depth + 1) for x in v), key=repr)
+    if isinstance(v, models.SymPath):
+        return ('path', concretize(v.to_str(), me, depth + 1))
     if isinstance(v, dict):
         return {concretize(k, me, depth + 1): concretize(x, me, depth + 1) for k, x in v.items()}
     if isinstance(v, Out):
@@ -144,6 +151,11 @@ def canon(v, depth=0):
         return ['Obj', canon({k: x for k, x in v.__dict__.items() if not k.startswith('_')}, depth + 1)]
     if isinstance(v, type):
         return '<class %s>' % v.__name__
+    if isinstance(v, models.SymPath):
+        return ['path', canon(v.to_str(), depth + 1)]
+    import pathlib
+    if isinstance(v, pathlib.PurePath):
+        return ['path', str(v)]
     tag = getattr(v, '_tag', None)
     if tag is not None:
         return '<%s %s>' % (type(v).__name__, tag)
@@ -158,7 +170,7 @@ def _char_class_excluding(chars):
         if c > lo:
             rs.append(z3.Range(chr(lo), chr(c - 1)))
         lo = c + 1
-    rs.append(z3.Range(chr(lo), chr(0x10FFFF)))
+    rs.append(z3.Range(z3.StringVal(chr(lo)), z3.Unit(z3.CharVal(0x10FFFF))))
     return z3.Union(*rs) if len(rs) > 1 else rs[0]
 
 
@@ -219,6 +231,7 @@ class Ctx:
             self._name(name)
             if exclude:
                 self.eng.add(z3.InRe(v.e, z3.Star(_char_class_excluding(exclude))))
+                self.eng.char_free[v.e.decl().name()] = set(exclude)
             if alphabet is not None:
                 self.eng.add(z3.InRe(v.e, z3.Star(z3.Union(*[z3.Re(c) for c in alphabet])
                                                    if len(alphabet) > 1 else z3.Re(alphabet))))
@@ -226,6 +239,23 @@ class Ctx:
             v = self.me.py(z3.String(self._name(name)))
         self.inputs.append((name, v))
         return v
+
+    def path(self, parts, absolute=True):
+        """a POSIX path with the given components (symbolic: component-list model, native: Path)"""
+        if self.mode == 'sym':
+            return models.SymPath(parts, absolute)
+        import pathlib
+        return pathlib.Path(('/' if absolute else '') + '/'.join(parts))
+
+    def pathstr(self, p):
+        """str(path) in both modes"""
+        return p.to_str() if isinstance(p, models.SymPath) else str(p)
+
+    def component(self, name, maxlen=6, alphabet=None):
+        """a path component: non-empty, no '/', no NUL/newline, not '.' or '..'"""
+        c = self.str(name, maxlen=maxlen, alphabet=alphabet, exclude=None if alphabet else '/\n\0')
+        self.assume(self.And(self.len(c) > 0, c != '.', c != '..'))
+        return c
 
     def choice(self, name, n):
         """an int in range(n), concrete in both modes (forks in symbolic mode)"""
